@@ -43,6 +43,7 @@ SOLVER_TIMEOUT_MS = 60000      # per query; raised in the thorough tier (core.ru
 class Ctx(object):
     def __init__(self, decisions=(), solver_timeout_ms=None):
         self.solver = z3.Solver()
+        self.timeout_ms = solver_timeout_ms
         self.solver.set('timeout', solver_timeout_ms or SOLVER_TIMEOUT_MS)
         self.decisions = list(decisions)
         self.forced = [True] * len(self.decisions)
@@ -56,6 +57,14 @@ class Ctx(object):
     def check(self, *assumps):
         t = time.time()
         r = self.solver.check(*assumps)
+        if r == z3.unknown and self.solver.reason_unknown() in ('canceled', 'timeout'):
+            # a query that hits the per-query time limit on a loaded machine gets one more try with four times the budget before
+            # the obligation is given up as inconclusive
+            self.solver.set('timeout', 4 * (self.timeout_ms or SOLVER_TIMEOUT_MS))
+            try:
+                r = self.solver.check(*assumps)
+            finally:
+                self.solver.set('timeout', self.timeout_ms or SOLVER_TIMEOUT_MS)
         self.tq += time.time() - t
         self.nq += 1
         if r == z3.unknown:
